@@ -276,6 +276,14 @@ def build_mesh(prog: dict, geo: Geometry):
         mesh.add_geometry({label: props})
     for key, val in prog["settings"]:
         mesh.settings[key] = val
+    if prog.get("late_reassemble"):
+        # everything said through the mesh (patch types and settings, default patch, merged pairs, geometry, settings) is the
+        # user's model too: an assembly followed by backport() of untouched vertices, or by clear(), changes nothing written later
+        mesh.assemble()
+        if prog["late_reassemble"] == "backport":
+            mesh.backport()
+        else:
+            mesh.clear()
     return mesh, ops
 
 
